@@ -78,7 +78,16 @@ fn world() -> &'static World {
         refs.insert("t1".to_string(), lib_dict(&[("id", r("t1")), ("a", r("t2")), ("b", r("t2")), ("equipRef", r("t2"))]));
         refs.insert("t2".to_string(), lib_dict(&[("id", r("t2")), ("a", r("t3")), ("b", r("t2")), ("equipRef", r("t3"))]));
         refs.insert("t3".to_string(), lib_dict(&[("id", r("t3")), ("a", r("t2")), ("equipRef", r("t2"))]));
+        // the same shapes with LISTS of refs in the ref tags (Haystack 4 allows `hotWaterRef: [@a, @b]`):
+        // cycles that run through lists, a list naming its own record, unknown ids inside lists
+        let rl = |ids: &[&str]| V::List(ids.iter().map(|i| r(i)).collect());
+        refs.insert("l1".to_string(), lib_dict(&[("id", r("l1")), ("a", rl(&["l2", "l3"])), ("equipRef", rl(&["l2", "l3"])), ("chilledWaterRef", rl(&["l2"])), ("hotWaterRef", rl(&["l1"])), ("equip", V::Marker), ("chiller", V::Marker)]));
+        refs.insert("l2".to_string(), lib_dict(&[("id", r("l2")), ("a", rl(&["l1"])), ("equipRef", rl(&["l1"])), ("chilledWaterRef", rl(&["nowhere", "l1"])), ("siteRef", rl(&["s", "l2"])), ("equip", V::Marker), ("pump", V::Marker)]));
+        refs.insert("l3".to_string(), lib_dict(&[("id", r("l3")), ("a", rl(&["l3", "l1"])), ("equipRef", rl(&["l3", "l1"])), ("spaceRef", rl(&[])), ("airRef", rl(&["l3"])), ("equip", V::Marker)]));
         let records = vec![
+            lib_dict(&[("id", r("lx")), ("a", rl(&["l1"])), ("equipRef", rl(&["l1", "l2"])), ("chilledWaterRef", rl(&["l1"])), ("hotWaterRef", rl(&["l1", "l3"])), ("siteRef", rl(&["l2"])), ("spaceRef", rl(&["l3"])), ("airRef", rl(&["l3"])), ("point", V::Marker)]),
+            lib_dict(&[("id", r("l1")), ("a", rl(&["l2", "l3"])), ("equipRef", rl(&["l2", "l3"])), ("chilledWaterRef", rl(&["l2"])), ("hotWaterRef", rl(&["l1"])), ("equip", V::Marker), ("chiller", V::Marker)]),
+            lib_dict(&[("id", r("ly")), ("a", V::List(vec![r("r"), V::List(vec![r("q")]), V::str("x")])), ("equipRef", V::List(vec![V::str("l1"), r("l1")])), ("siteRef", rl(&["nowhere"])), ("chilledWaterRef", r("l1")), ("point", V::Marker)]),
             lib_dict(&[]),
             lib_dict(&[("a", V::Marker)]),
             lib_dict(&[("a", V::num(5.0)), ("b", V::str("s"))]),
@@ -399,7 +408,8 @@ fn unhex(s: &str) -> Vec<u8> {
 fn describe(job: &str, ord: u64, b: &[u8]) -> J {
     let stack = if job == "nest2" { "2MiB" } else { "8MiB" };
     if b.len() > 300 {
-        json!({"job": job, "ordinal": ord, "len": b.len(), "prefix": String::from_utf8_lossy(&b[..40]), "stack": stack, "generated": true})
+        let tier = if THOROUGH.load(std::sync::atomic::Ordering::Relaxed) { "thorough" } else { "quick" };
+        json!({"job": job, "ordinal": ord, "tier": tier, "len": b.len(), "prefix": String::from_utf8_lossy(&b[..40]), "stack": stack, "generated": true})
     } else {
         json!({"hex": hex(b), "text": String::from_utf8_lossy(b), "stack": stack})
     }
@@ -456,7 +466,7 @@ pub fn child_params(job: &str) -> (u64, u64, usize) {
 pub fn run(tier: Tier) -> i32 {
     THOROUGH.store(tier == Tier::Thorough, std::sync::atomic::Ordering::Relaxed);
     let mut run = Run::new("C09", tier, "fault_enumeration");
-    run.rule = "inputs: every sequence of <= 4/5 tokens over a 30-token alphabet (tags, keywords, every operator, literals of several kinds, stray '-' '=' '?') joined with and without spaces; every byte string <= 2/3 over all bytes; every prefix, substitution, deletion and insertion (23-byte alphabet) of ~280 printed filters; every one of the 256 byte values substituted at and inserted before every position of the printed filters of <= 22 bytes; long tokens (the 24 token kinds of C03 with bodies of every length 1..72, 100, 127..129, 255..257, 300, 1000 as comparison literals; identifiers, paths, and/or chains and symbols of those lengths; all sequences of <= 3 \\uXXXX escapes incl. every surrogate combination); 8 nesting patterns ('(' , 'not ', 'a and ', 'a->', mixed) at every depth 1..256, 2^k(+1) up to 131072 and 10^5 on 8 MiB and 2 MiB stacks. Every input is parsed; every accepted filter is evaluated on 17 records with a resolver whose refs form 1- and 2-cycles and which answers unknown ids in four ways (nothing, an empty record, a record without ref tags, a record pointing back at the same id) over a namespace built from tests/defs/defs.zinc, printed and re-parsed. Oracle: returns — no panic, abort, stack overflow (exit status) or hang (6 s watchdog). non-trivial = distinct input of >= 2 bytes".into();
+    run.rule = "inputs: every sequence of <= 4/5 tokens over a 30-token alphabet (tags, keywords, every operator, literals of several kinds, stray '-' '=' '?') joined with and without spaces; every byte string <= 2/3 over all bytes; every prefix, substitution, deletion and insertion (23-byte alphabet) of ~280 printed filters; every one of the 256 byte values substituted at and inserted before every position of the printed filters of <= 22 bytes; long tokens (the 24 token kinds of C03 with bodies of every length 1..72, 100, 127..129, 255..257, 300, 1000 as comparison literals; identifiers, paths, and/or chains and symbols of those lengths; all sequences of <= 3 \\uXXXX escapes incl. every surrogate combination); 8 nesting patterns ('(' , 'not ', 'a and ', 'a->', mixed) at every depth 1..256, 2^k(+1) up to 131072 and 10^5 on 8 MiB and 2 MiB stacks. Every input is parsed; every accepted filter is evaluated on 20 records (three of them and three resolvable records carry LISTS of refs in their ref tags: cycles through lists, a list naming its own record, unknown ids and non-refs inside lists) with a resolver whose refs form 1- and 2-cycles and which answers unknown ids in four ways (nothing, an empty record, a record without ref tags, a record pointing back at the same id) over a namespace built from tests/defs/defs.zinc, printed and re-parsed. Oracle: returns — no panic, abort, stack overflow (exit status) or hang (6 s watchdog). non-trivial = distinct input of >= 2 bytes".into();
     run.assume("a case that does not finish within 6 s is a hang; crashes and hangs are confirmed in a fresh single-step child");
     crate::engine::quiet_panics();
     for (name, n, chunk) in jobs(tier) {
@@ -480,7 +490,9 @@ pub fn replay(case: &J) -> Verdict {
     };
     let c2 = case.clone();
     let d = move |_o: u64| c2.clone();
-    let job = Job { prop: "C09", tier: "thorough", job: &jobname, n: 1, chunk: 1, env: vec![], exe: None, describe: &d };
+    // generated inputs are numbered per tier
+    let tname = case["tier"].as_str().unwrap_or("thorough").to_string();
+    let job = Job { prop: "C09", tier: &tname, job: &jobname, n: 1, chunk: 1, env: vec![], exe: None, describe: &d };
     let l = run_job(&job);
     match l.fails.values().next() {
         Some(f) => Err((f.sig.clone(), if f.sig.starts_with("crash") || f.sig == "hang" { f.sig.clone() } else { f.detail.clone() })),
